@@ -195,6 +195,11 @@ def rec_job(name, defs, what, **kw):
     return d
 
 
+# realloc of an array of 80-byte ares_dns_rr_t: valloc's byte-loop copy makes the moved name pointers symbolic (no verdict
+# in 240 s); its array-level copy (__CPROVER_array_replace) keeps them: 13 s
+ARRCOPY = ["-DVP_REALLOC_ARRAYCOPY"]
+
+
 def record_jobs(tier):
     J = [rec_job("create", ["-DOP=0"], "ares_dns_record_create (record + 4 section arrays)")]
     for n in (0, 4):
@@ -204,10 +209,10 @@ def record_jobs(tier):
         for n in (0, 4):
             if tier == "quick" and sect != 1 and n == 0:
                 continue
-            J.append(rec_job("rr_add_s%d_n%d" % (sect, n), ["-DOP=3", "-DSECT=%d" % sect, "-DNPRE=%d" % n],
+            J.append(rec_job("rr_add_s%d_n%d" % (sect, n), ["-DOP=3", "-DSECT=%d" % sect, "-DNPRE=%d" % n] + ARRCOPY * (n > 0),
                              "ares_dns_record_rr_add into section %d holding %d RRs (4: storage doubles and moves)" % (sect, n)))
     for n in (0, 4):
-        J.append(rec_job("rr_prealloc_n%d" % n, ["-DOP=4", "-DNPRE=%d" % n], "ares_dns_record_rr_prealloc(+3) with %d RRs present" % n))
+        J.append(rec_job("rr_prealloc_n%d" % n, ["-DOP=4", "-DNPRE=%d" % n] + ARRCOPY * (n > 0), "ares_dns_record_rr_prealloc(+3) with %d RRs present" % n))
     for n in (0, 1):
         J.append(rec_job("set_str_old%d" % n, ["-DOP=5", "-DNPRE=%d" % n], "ares_dns_rr_set_str (NS name, HINFO OS)%s" % (" over an old value" * n)))
         J.append(rec_job("set_bin_old%d" % n, ["-DOP=6", "-DNPRE=%d" % n], "ares_dns_rr_set_bin (CAA value, TLSA data)%s" % (" over an old value" * n)))
@@ -236,9 +241,61 @@ def record_jobs(tier):
     return J
 
 
+# ---------------------------------------------------------------------------------------------- 4. codec
+# shape (from harness/C03/jobs.py RR_SHAPES) -> (allocations of the unfailed ares_dns_write, of ares_dns_parse, tier,
+# known-finding positions of the parse direction).  Counts and regions are measured natively by harness/C14/sweep.py and
+# BOUND-checked by the harness (a drift makes the job inconclusive, never silently incomplete).
+CODEC = {
+    "A": (16, 14, "quick", None),
+    "MX": (25, 16, "quick", None),
+    "TXT1": (16, 18, "quick", None),
+    "OPT1": (19, 17, "quick", (16, 17)),
+    "SVCB1": (24, 19, "quick", (18, 19)),
+    "CAA": (16, 17, "quick", None),
+    "HTTPS2": (24, 19, "thorough", (18, 19)),
+    "NS": (25, 16, "thorough", None),
+    "SOA": (34, 18, "thorough", None),
+    "HINFO": (16, 18, "thorough", None),
+    "NAPTR": (24, 22, "thorough", None),
+    "TXT3": (16, 20, "thorough", None),
+    "OPT2": (19, 17, "thorough", None),
+    "SRV": (26, 16, "thorough", None),
+}
+CODEC_PER = 12  # failing positions per job
+
+
+def codec_jobs(tier):
+    c03 = _load("C03/jobs.py", "c03_jobs_for_c14")
+    shapes = dict((nm, (rtype, sect, extra, txt)) for nm, rtype, sect, extra, t, txt in c03.RR_SHAPES)
+    J = []
+    for nm, (nw, npz, t, kf) in CODEC.items():
+        if tier == "quick" and t != "quick":
+            continue
+        rtype, sect, extra, txt = shapes[nm]
+        base = ["-DRTYPE=%d" % rtype, "-DSECT=%d" % sect] + extra
+        for d, n, what in ((0, nw, "ares_dns_write"), (1, npz, "ares_dns_parse")):
+            kfd = []
+            if d == 1 and kf:
+                kfd = ["-DKFLO=%d" % kf[0], "-DKFHI=%d" % kf[1]] + (["-DKFPOS2=%d" % kf[2]] if len(kf) > 2 else [])
+
+            def mk(snm, defs, stxt, wit, d=d, what=what, kfd=kfd):
+                if d == 0:
+                    wit = [w for w in wit if w != FAILW]  # some positions are absorbed (lost compression target)
+                jd = dict(name="codec_%s_%s_%s" % ("write" if d == 0 else "parse", nm, snm), harness="codec_oom.c",
+                          defines=base + ["-DDIR=%d" % d] + defs + kfd, real=REC_LIB, support=REC_SUP, unwind=140,
+                          unwindset=["vp_realloc.0:650"], witnesses=wit,
+                          bound="public-API record (1 question + 1 RR: %s), values symbolic; %s with %s" % (txt, what, stxt))
+                if kfd:
+                    jd["kf_group"] = "codec_parse_optval"
+                return jd
+            J += sliced(mk, nalloc=n, per=CODEC_PER)
+    return J
+
+
 def jobs(tier, seed):
     J = []
     J += buf_jobs(tier)
+    J += codec_jobs(tier)
     J += record_jobs(tier)
     J += array_jobs(tier)
     J += create_jobs(tier)
